@@ -278,6 +278,12 @@ func cellFromCellBlock(b []byte) (*pb.Cell, uint32, error) {
 }
 
 func deserializeCellBlocks(b []byte, cellsLen uint32) ([]*pb.Cell, uint32, error) {
+	// the number of cells comes from the network, don't allocate for more
+	// cells than the buffer can possibly hold
+	if uint64(cellsLen) > uint64(len(b))/minCellLen {
+		return nil, 0, fmt.Errorf(
+			"buffer is too small: got %d bytes for %d cells", len(b), cellsLen)
+	}
 	cells := make([]*pb.Cell, cellsLen)
 	var readLen uint32
 	for i := 0; i < int(cellsLen); i++ {
